@@ -138,6 +138,23 @@ CHECKS = {
                 tech="contract-based deductive verification (z3 sequences/strings/datatypes), inductive lemma in SMT",
                 note="str(RenderTree), by_attr(), _format_row_any and the Node/AnyNode reprs, and the closed-form reading (bridge L8), "
                      "are covered by the BOUNDED stand-in run in both tiers (evidence.bounded_parts), never counted as proved."),
+    "C17": dict(cat="other", design="3/C17",
+                text="IDENT obligations decided by a kind analysis of the real AST of every function of the listed modules: no truth "
+                     "test, comparison, membership test, hashing, len(), iteration, subscription, list.index/remove/count or "
+                     "sorted/min/max is applied to a value that may be a tree node; each flagged site is an unaccepted obligation. "
+                     "Complemented by adversarial node classes run through every structural operation (bounded).",
+                tech="contract preconditions of built-ins discharged by kind inference over the AST (no solver) + adversarial-class execution",
+                note="Level 'other': the discharge is a syntactic kind analysis with reviewed kind tables, not an SMT proof. Repaired by "
+                     "fix: f8175df (util siblings) and 645dd4e (glob de-duplication). The optional fastcache branch is outside the claim."),
+    "C19": dict(cat="other", design="3/C19",
+                text="The round trip is executed by CPython's pickle/copy; no function of anytree implements it. Proved are the "
+                     "repository-side conditions under which the assumed dependency contract yields the property: no class "
+                     "customises reduction/copying, the link state lives only in the two bookkeeping attributes written by the "
+                     "verified mutators, no module-level state, and SymlinkNodeMixin.__getattr__ refuses '__setstate__' and the "
+                     "bookkeeping names before touching self.target (obligations from the real body).",
+                tech="repository-side contract conditions (AST scans + SMT obligations); dependency contract assumed, validated boundedly",
+                note="Level 'other': the isomorphism itself is an ASSUMED contract on pickle/copy, validated only boundedly (all trees "
+                     "<= 4/5 nodes x 5 class mixes x every entry node x every protocol and deepcopy)."),
 }
 REASONS = {}
 
